@@ -327,9 +327,10 @@ class Session:
         return [c for c in self.cells if c not in self.at]
 
     def viol(self, key, what, subject=None, **extra):
-        if (key, subject) in self.reported:
+        base = key.split("/after-")[0]  # a lingering disagreement is reported once, with the operation after which it first appeared
+        if (base, subject) in self.reported:
             return
-        self.reported.add((key, subject))
+        self.reported.add((base, subject))
         self.rec.violation(key, what, dict(self.witness(), subject=subject, **extra))
 
     def classify(self, key, obj):
